@@ -26,6 +26,7 @@ type GenCfg struct {
 	MaxLabels          int
 	PS                 int  // 1-in-N statements are poryswitch statements (0 = never)
 	PSNestedFallback   bool // nested poryswitches always have a '_' case
+	PSAlwaysFallback   bool // every statement poryswitch has a '_' case
 	PSNoDirectContinue bool // never 'continue' as a direct statement of a poryswitch case
 }
 
@@ -371,7 +372,7 @@ func (g *genCtx) psStmt(depth int, inLoop, inBrk bool) *PSStmt {
 	ps := &PSStmt{Var: rapid.SampledFrom([]string{"V", "W"}).Draw(t, "psvar")}
 	keys := rapid.Permutation(psKeys).Draw(t, "pskeys")
 	keys = keys[:rapid.IntRange(1, 4).Draw(t, "npskeys")]
-	if g.psDepth > 1 && g.cfg.PSNestedFallback {
+	if (g.psDepth > 1 && g.cfg.PSNestedFallback) || g.cfg.PSAlwaysFallback {
 		has := false
 		for _, k := range keys {
 			has = has || k == "_"
